@@ -307,6 +307,7 @@ func runCase(c *driver.Ctx, class string, t *kit.Topology, rng *rand.Rand) {
 		return
 	}
 	if pv != nil {
+		pv, pstack = kit.UnwrapPanic(pv, pstack)
 		w.Detail = fmt.Sprintf("panic: %v\n%s", pv, pstack)
 		c.Violation("panic", fmt.Sprintf("panic while running a %s configuration: %v", class, pv), w, "site", driver.PanicSite(pstack), "valid", fmt.Sprint(v.Valid))
 		return
